@@ -292,3 +292,20 @@ Lemma gen_sim_plan_decode_errors : forall ty a b c d,
   g_sim_plan_decode_event false 2 1 2 3 a true c d = ([], RetO 3) /\
   g_sim_plan_decode_event false 3 1 2 3 a b true d = ([], RetO 4).
 Proof. intros. repeat split. Qed.
+
+(* ---------------- the process's exit status ---------------- *)
+(* main: after everything has stopped, the process exits with status 1 exactly when AllProgressComplete is false;
+   AllProgressComplete waits for checkProgress and returns what it stored: every tracker done and none failed (the
+   model's verdict); checkProgress stops the renderer early only when something is registered and nothing is active *)
+Lemma gen_sim_exit_status : forall ts,
+  fst (g_sim_main_exit (verdict ts)) = (if verdict ts then [] else [1]) /\
+  g_sim_all_progress_complete = ([1], RetO 1) /\ g_sim_check_progress = ([1; 2; 3], Fall).
+Proof. intros ts. unfold g_sim_main_exit. destruct (verdict ts); repeat split. Qed.
+
+Lemma gen_sim_check_progress_body : forall n a,
+  g_sim_check_progress_body false n a = ([2; 3; 1], Fall) /\
+  fst (g_sim_check_progress_body true n a) = (if (0 <? n) && (a =? 0) then [1] else []).
+Proof.
+  intros n a. unfold g_sim_check_progress_body. split; [reflexivity|].
+  gen_split; cbn [andb fst]; try reflexivity; exfalso; lia.
+Qed.
